@@ -355,6 +355,196 @@ def r_narrowprint(ctx, prog, rule="R-NARROWPRINT"):
 
 
 def run(ctx, prog):
+    r_nowrap(ctx, prog)
+    r_narrowcmp(ctx, prog)
     r_expcut(ctx, prog)
     r_floatpath(ctx, prog)
     r_narrowprint(ctx, prog)
+
+
+def r_narrowcmp(ctx, prog, rule="R-NARROWCMP", files=("Numbers/",)):
+    """No comparison decides on a truncated value: an operand of < <= > >= == !=
+    that is an integral conversion to a narrower type must have a source whose
+    range fits the target (interval evaluation, rules/shift.py); otherwise
+    the decision is taken on the low bits only (a 10-digit mantissa compared
+    as 32 bits selects the single-precision path)."""
+    from rules import shift
+    B = shift.Bounds(prog)
+    n = 0
+    seen = set()
+    for fn in sorted(prog.fns.values(), key=lambda f: f.key):
+        if not fn.file.startswith(files) or fn.cfg is None:
+            continue
+        for i in fn.walk():
+            st = fn.s(i)
+            if st["k"] != "BinaryOperator" or st["op"] not in ("<", "<=", ">", ">=", "==", "!="):
+                continue
+            for opnd in st["c"]:
+                # outermost conversions of the operand
+                j = opnd
+                while j is not None and j >= 0:
+                    sj = fn.s(j)
+                    if sj["k"] in P.TRANSPARENT or sj["k"] in P.EXPLICIT_CASTS:
+                        if sj.get("ck") == "IntegralCast" or (sj["k"] in P.EXPLICIT_CASTS and sj.get("ck") in ("IntegralCast", "NoOp")):
+                            inner = fn.s(sj["c"][0]) if sj["c"] else {}
+                            fk, tk = sj.get("fromk") or inner.get("tk", ""), sj.get("tk", "")
+                            fr_, tr_ = shift.type_range(fk), shift.type_range(tk)
+                            if fr_ and tr_ and (fr_[0] < tr_[0] or fr_[1] > tr_[1]) and sj.get("ck") == "IntegralCast":
+                                if fn.const(sj["c"][0]) is None and "cv" not in fn.s(sj["c"][0]):
+                                    key = (fn.short, fn.loc(j), fn.text(j))
+                                    if key not in seen:
+                                        seen.add(key)
+                                        n += 1
+                                        r = B.ev(fn, sj["c"][0], i)
+                                        ok = r is not None and tr_[0] <= r[0] and r[1] <= tr_[1]
+                                        ctx.ob(rule, "%s: %s keeps its value" % (fn.short, fn.text(j)[:50]), ok, fn.loc(j),
+                                               "source in [%d, %d] fits %s" % (r[0], r[1], tk) if ok else
+                                               "the comparison `%s` is decided on %s converted from %s to %s: values above %d lose their high "
+                                               "bits first, so the branch taken does not follow the value" %
+                                               (fn.text(i)[:80], fn.text(sj["c"][0])[:40], fk, tk, tr_[1]))
+                        j = sj["c"][0] if sj["c"] else None
+                    else:
+                        break
+    ctx.count(rule + ":sites", n)
+    ctx.doc(rule, r_narrowcmp.__doc__.strip().replace("\n", " "))
+
+
+def r_nowrap(ctx, prog, rule="R-NOWRAP"):
+    """The unsigned accumulations of parseNumber never wrap: for every + and *
+    of the mantissa's (unsigned) type, the interval of the result — operands
+    bounded by their dominating guards — stays within the type, or the
+    operation is x*k + d under the dominating guard !(x > (M - d)/k), which
+    bounds it by M exactly.  A wrapped mantissa is a finite value of the
+    wrong magnitude."""
+    from rules import shift
+    B = shift.Bounds(prog)
+    n = 0
+    for fn in parse_fns(prog):
+        for i in fn.walk():
+            st = fn.s(i)
+            if st["k"] not in ("BinaryOperator", "CompoundAssignOperator") or st["op"] not in ("+", "*", "+=", "*="):
+                continue
+            tk = st.get("tk", "")
+            if st["k"] == "CompoundAssignOperator":
+                tk = fn.s(st["c"][0]).get("tk", tk)
+            if not (tk[:1] == "u" and tk[1:].isdigit() and int(tk[1:]) >= 32):
+                continue
+            # only top-level arithmetic (x*k + d is judged as a whole)
+            par = fn.parent(i)
+            while par is not None and (fn.s(par)["k"] in P.TRANSPARENT or fn.s(par)["k"] in P.EXPLICIT_CASTS):
+                par = fn.parent(par)
+            if par is not None and fn.s(par)["k"] == "BinaryOperator" and fn.s(par)["op"] in ("+", "*") and fn.s(par).get("tk") == tk:
+                continue
+            if fn.const(i) is not None or "cv" in st:
+                continue
+            n += 1
+            tmax = (1 << int(tk[1:])) - 1
+            l0 = fn.s(fn.strip(st["c"][0], casts=True))
+            if st["op"] == "+" and l0["k"] == "UnaryOperator" and l0["op"] == "~" and fn.const(st["c"][1]) == 1:
+                ctx.ob(rule, "parseNumber: `%s` cannot wrap" % fn.text(i)[:50], True, fn.loc(i),
+                       "~x + 1 is the two's-complement negation of x: modular arithmetic is the intent (idiom table)", nontrivial=False)
+                continue
+            a, b = B.ev(fn, st["c"][0], i), B.ev(fn, st["c"][1], i)
+            hi = None
+            if a is not None and b is not None:
+                hi = a[1] + b[1] if st["op"] in ("+", "+=") else a[1] * b[1]
+            ok = hi is not None and hi <= tmax
+            why = "result at most %s" % hi if ok else ""
+            if not ok:
+                # lemma: x*k + d  under  !(x > (M - d)/k)
+                lem = mul_add_lemma(fn, i, st)
+                if lem is not None and lem <= tmax:
+                    ok = True
+                    why = "x*k + d under the guard x <= (M - d)/k: at most M = %d" % lem
+            ctx.ob(rule, "parseNumber: `%s` cannot wrap" % fn.text(i)[:50], ok, fn.loc(i),
+                   why if ok else
+                   "the operands of `%s` (%s) are not bounded by any dominating guard: the result can exceed %d and wrap around, "
+                   "leaving a small mantissa for a large literal" % (fn.text(i)[:60], tk, tmax))
+    ctx.count(rule + ":sites", n)
+    ctx.doc(rule, r_nowrap.__doc__.strip().replace("\n", " "))
+
+
+def const_of(fn, e):
+    M = fn.const(e)
+    if M is None and "cv" in fn.s(e):
+        M = int(fn.s(e)["cv"])
+    if M is None:
+        mm = fn.s(fn.strip(e, casts=True))
+        if mm["k"] == "DeclRefExpr":
+            for q in fn.walk():
+                sq = fn.s(q)
+                if sq["k"] == "DeclStmt":
+                    for dd in sq["decls"]:
+                        if dd["d"] == mm["ref"]["d"] and "init" in dd:
+                            M = fn.const(dd["init"])
+                            if M is None and "cv" in fn.s(dd["init"]):
+                                M = int(fn.s(dd["init"])["cv"])
+    return None if M is None else int(M)
+
+
+def simple_lemmas(fn, i, st):
+    """x + d under !(x > M - d)  ->  <= M ;  x * k under !(x > M / k)  ->  <= M"""
+    op = st["op"].rstrip("=") if st["k"] == "CompoundAssignOperator" else st["op"]
+    x = fn.s(fn.strip(st["c"][0], casts=True))
+    if x["k"] != "DeclRefExpr":
+        return None
+    other = fn.strip(st["c"][1], casts=True)
+    for cond, pol in all_guards(fn, i):
+        c = fn.s(fn.strip(cond, casts=True))
+        if c["k"] != "BinaryOperator" or c["op"] != ">" or pol is not False:
+            continue
+        l = fn.s(fn.strip(c["c"][0], casts=True))
+        r = fn.s(fn.strip(c["c"][1], casts=True))
+        if l["k"] != "DeclRefExpr" or l["ref"]["d"] != x["ref"]["d"] or r["k"] != "BinaryOperator":
+            continue
+        M = const_of(fn, r["c"][0])
+        if M is None:
+            continue
+        if op == "+" and r["op"] == "-" and fn.text(fn.strip(r["c"][1], casts=True)) == fn.text(other):
+            return M
+        if op == "*" and r["op"] == "/" and fn.const(r["c"][1]) is not None and fn.const(r["c"][1]) == fn.const(other):
+            return M
+    return None
+
+
+def mul_add_lemma(fn, i, st):
+    sl = simple_lemmas(fn, i, st)
+    if sl is not None:
+        return sl
+    if st["op"] != "+":
+        return None
+    m = fn.s(fn.strip(st["c"][0], casts=True))
+    dtxt = fn.text(fn.strip(st["c"][1], casts=True))
+    if m["k"] != "BinaryOperator" or m["op"] != "*":
+        return None
+    x = fn.s(fn.strip(m["c"][0], casts=True))
+    k = fn.const(m["c"][1])
+    if x["k"] != "DeclRefExpr" or k is None:
+        return None
+    for cond, pol in all_guards(fn, i):
+        c = fn.s(fn.strip(cond, casts=True))
+        if c["k"] != "BinaryOperator" or c["op"] != ">" or pol is not False:
+            continue
+        l = fn.s(fn.strip(c["c"][0], casts=True))
+        r = fn.s(fn.strip(c["c"][1], casts=True))
+        if l["k"] != "DeclRefExpr" or l["ref"]["d"] != x["ref"]["d"]:
+            continue
+        if r["k"] == "BinaryOperator" and r["op"] == "/" and fn.const(r["c"][1]) == k:
+            num = fn.s(fn.strip(r["c"][0], casts=True))
+            if num["k"] == "BinaryOperator" and num["op"] == "-":
+                M = fn.const(num["c"][0])
+                if M is None:
+                    # a const local
+                    mm = fn.s(fn.strip(num["c"][0], casts=True))
+                    if mm["k"] == "DeclRefExpr":
+                        for q in fn.walk():
+                            sq = fn.s(q)
+                            if sq["k"] == "DeclStmt":
+                                for dd in sq["decls"]:
+                                    if dd["d"] == mm["ref"]["d"] and "init" in dd:
+                                        M = fn.const(dd["init"])
+                                        if M is None and "cv" in fn.s(dd["init"]):
+                                            M = int(fn.s(dd["init"])["cv"])
+                if M is not None and fn.text(fn.strip(num["c"][1], casts=True)) == dtxt:
+                    return int(M)
+    return None
